@@ -623,30 +623,33 @@ Section CallProofs.
   Context {V : Type}.
   Variable inj : string -> V.
   Notation fdef := (@fdef V).
-  Definition deps (kc : fdef) : list string := fst (snd kc).
+  Definition params (kc : fdef) : list (string * option V) := fst (snd kc).
+  (* getargs: the names of ALL parameters, defaulted or not *)
+  Definition deps (kc : fdef) : list string := map fst (params kc).
   Definition fn (kc : fdef) : list V -> V := snd (snd kc).
 
-  (* every parameter of every callable can be bound: from the mapping, from another callable, or the implicit key *)
+  (* every parameter of every callable can be bound: from the mapping, from another callable, the implicit key, or its own default *)
   Definition avail (res0 : amap V) (cs : list fdef) : Prop :=
-    forall kc d, In kc cs -> In d (deps kc) -> aget d res0 <> None \/ In d (skeys cs) \/ d = "key"%string.
+    forall kc p, In kc cs -> In p (params kc) ->
+      aget (fst p) res0 <> None \/ In (fst p) (skeys cs) \/ fst p = "key"%string \/ snd p <> None.
   Definition acyclic (cs : list fdef) : Prop :=
     exists rank : string -> nat, forall kc d, In kc cs -> In d (deps kc) -> In d (skeys cs) -> rank d < rank (fst kc).
   (* R is a dependency-order evaluation: untouched outside the callables, and every derived key holds
      its function applied to the (final) values of its parameters *)
   Definition solves (res0 : amap V) (cs : list fdef) (R : amap V) : Prop :=
     (forall k, ~ In k (skeys cs) -> aget k R = aget k res0) /\
-    (forall kc, In kc cs -> exists vs, args inj R (fst kc) (deps kc) = Some vs /\ aget (fst kc) R = Some (fn kc vs)).
+    (forall kc, In kc cs -> exists vs, args inj R (fst kc) (params kc) = Some vs /\ aget (fst kc) R = Some (fn kc vs)).
 
   (* no entry and no derived key is literally named self (it would collide with the methods' own self parameter) *)
   Definition no_self (res0 : amap V) (cs : list fdef) : Prop := aget "self"%string res0 = None /\ ~ In "self"%string (skeys cs).
 
-  Lemma arg_ext R1 R2 k d : aget d R1 = aget d R2 -> arg inj R1 k d = arg inj R2 k d.
+  Lemma arg_ext R1 R2 k (p : string * option V) : aget (fst p) R1 = aget (fst p) R2 -> arg inj R1 k p = arg inj R2 k p.
   Proof. unfold arg. intros ->. reflexivity. Qed.
-  Lemma args_ext R1 R2 k ds : (forall d, In d ds -> arg inj R1 k d = arg inj R2 k d) -> args inj R1 k ds = args inj R2 k ds.
+  Lemma args_ext R1 R2 k (ds : list (string * option V)) : (forall d, In d ds -> arg inj R1 k d = arg inj R2 k d) -> args inj R1 k ds = args inj R2 k ds.
   Proof.
     induction ds as [|d ds IH]; simpl; intros H; auto. rewrite (H d) by auto. rewrite IH; auto.
   Qed.
-  Lemma args_some res k ds : (forall d, In d ds -> arg inj res k d <> None) -> exists vs, args inj res k ds = Some vs.
+  Lemma args_some res k (ds : list (string * option V)) : (forall d, In d ds -> arg inj res k d <> None) -> exists vs, args inj res k ds = Some vs.
   Proof.
     induction ds as [|d ds IH]; simpl; intros H; [eauto|].
     destruct (arg inj res k d) eqn:E; [|exfalso; apply (H d); auto].
@@ -663,9 +666,9 @@ Section CallProofs.
       - apply in_map_iff in Hin. destruct Hin as [kc [E Hkc]]. subst k.
         destruct (B1 kc Hkc) as [vs1 [a1 g1]]. destruct (B2 kc Hkc) as [vs2 [a2 g2]].
         rewrite g1, g2. f_equal. f_equal.
-        assert (Ea : args inj R1 (fst kc) (deps kc) = args inj R2 (fst kc) (deps kc)).
-        { apply args_ext. intros d Hd. apply arg_ext. destruct (in_dec string_dec d (skeys cs)) as [i|i].
-          - apply IHn. specialize (Hr kc d Hkc Hd i). lia.
+        assert (Ea : args inj R1 (fst kc) (params kc) = args inj R2 (fst kc) (params kc)).
+        { apply args_ext. intros p Hp. apply arg_ext. destruct (in_dec string_dec (fst p) (skeys cs)) as [i|i].
+          - apply IHn. specialize (Hr kc (fst p) Hkc (in_map fst _ _ Hp) i). lia.
           - rewrite A1, A2; auto. }
         congruence.
       - rewrite A1, A2; auto. }
@@ -677,10 +680,10 @@ Section CallProofs.
     (forall d, aget d res0 <> None -> aget d res <> None) /\
     (forall kc, In kc cs -> ~ In (fst kc) P ->
        (forall d, In d (deps kc) -> ~ In d P) /\
-       exists vs, args inj res (fst kc) (deps kc) = Some vs /\ aget (fst kc) res = Some (fn kc vs)).
+       exists vs, args inj res (fst kc) (params kc) = Some vs /\ aget (fst kc) res = Some (fn kc vs)).
 
-  Lemma arg_aset res k0 k v d : d <> k -> arg inj (aset k v res) k0 d = arg inj res k0 d.
-  Proof. intros H. unfold arg. rewrite aget_aset. destruct (String.eqb_spec d k); [contradiction|reflexivity]. Qed.
+  Lemma arg_aset res k0 k v (p : string * option V) : fst p <> k -> arg inj (aset k v res) k0 p = arg inj res k0 p.
+  Proof. intros H. unfold arg. rewrite aget_aset. destruct (String.eqb_spec (fst p) k); [contradiction|reflexivity]. Qed.
 
   Lemma step res0 cs P res kc :
     NoDup (skeys cs) -> avail res0 cs -> no_self res0 cs -> Inv res0 cs P res -> In kc cs -> In (fst kc) P ->
@@ -689,15 +692,17 @@ Section CallProofs.
   Proof.
     intros HN HA [HS0 HSk] [I1 [I2 I3]] Hkc HkP Hd.
     assert (HSr : aget "self"%string res = None) by (rewrite (I1 _ HSk); exact HS0).
-    assert (Hargs : exists vs, args inj res (fst kc) (deps kc) = Some vs).
-    { apply args_some. intros d Hdd. unfold arg. destruct (aget d res) eqn:E; [discriminate|].
-      destruct (HA kc d Hkc Hdd) as [H|[H|H]].
-      - exfalso. apply (I2 d H E).
-      - exfalso. apply in_map_iff in H. destruct H as [kc' [E' Hkc']]. subst d.
-        destruct (I3 kc' Hkc' (Hd _ Hdd)) as [_ [vs [_ G]]]. congruence.
-      - subst d. simpl. discriminate. }
+    assert (Hargs : exists vs, args inj res (fst kc) (params kc) = Some vs).
+    { apply args_some. intros p Hp. pose proof (in_map fst _ _ Hp : In (fst p) (deps kc)) as Hdd.
+      unfold arg. destruct (aget (fst p) res) eqn:E; [discriminate|].
+      destruct (HA kc p Hkc Hp) as [H|[H|[H|H]]].
+      - exfalso. apply (I2 _ H E).
+      - exfalso. apply in_map_iff in H. destruct H as [kc' [E' Hkc']].
+        destruct (I3 kc' Hkc') as [_ [vs [_ G]]]; [rewrite E'; apply (Hd _ Hdd)|]. rewrite E' in G. congruence.
+      - rewrite H. simpl. discriminate.
+      - destruct (String.eqb (fst p) "key"); [discriminate|exact H]. }
     destruct Hargs as [vs Hvs]. exists (aset (fst kc) (fn kc vs) res). split.
-    { unfold eval1. rewrite HSr. fold (deps kc). rewrite Hvs. reflexivity. }
+    { unfold eval1. rewrite HSr. fold (params kc). rewrite Hvs. reflexivity. }
     assert (Hself : forall d, In d (deps kc) -> d <> fst kc) by (intros d Hdd ->; apply (Hd _ Hdd HkP)).
     split; [|split].
     - intros k Hk. rewrite aget_aset. destruct (String.eqb_spec k (fst kc)); [|auto].
@@ -707,14 +712,14 @@ Section CallProofs.
       + assert (kc' = kc) by (apply (nodup_keys_inj cs); auto). subst kc'. split.
         * intros d Hdd Hin. apply In_pminus in Hin. apply (Hd d Hdd). tauto.
         * exists vs. split.
-          -- rewrite <- Hvs. apply args_ext. intros d Hdd. apply arg_aset. auto.
+          -- rewrite <- Hvs. apply args_ext. intros p Hp. apply arg_aset. apply Hself. apply in_map. exact Hp.
           -- rewrite aget_aset, String.eqb_refl. reflexivity.
       + assert (HnP : ~ In (fst kc') P).
         { intros Hin. apply Hn. apply In_pminus. split; auto. simpl. intuition congruence. }
         destruct (I3 kc' Hkc' HnP) as [D [vs' [Hvs' G]]]. split.
         * intros d Hdd Hin. apply In_pminus in Hin. apply (D d Hdd). tauto.
         * exists vs'. split.
-          -- rewrite <- Hvs'. apply args_ext. intros d Hdd. apply arg_aset. intros ->. apply (D _ Hdd HkP).
+          -- rewrite <- Hvs'. apply args_ext. intros p Hp. apply arg_aset. intros E'. apply (D _ (in_map fst _ _ Hp)). rewrite E'. exact HkP.
           -- rewrite aget_aset. destruct (String.eqb_spec (fst kc') (fst kc)); [contradiction|auto].
   Qed.
 
@@ -748,7 +753,7 @@ Section CallProofs.
 
   Lemma independent_spec keys (kc : fdef) : independent keys kc = true <-> forall d, In d (deps kc) -> ~ In d keys.
   Proof.
-    unfold independent. rewrite negb_true_iff. fold (deps kc). split.
+    unfold independent. rewrite negb_true_iff. fold (params kc). fold (deps kc). split.
     - intros H d Hd Hin. assert (existsb (fun d => inl d keys) (deps kc) = true); [|congruence].
       apply existsb_exists. exists d. split; auto. apply inl_In. auto.
     - intros H. destruct (existsb (fun d => inl d keys) (deps kc)) eqn:E; auto.
